@@ -30,7 +30,7 @@ impl BlockParser {
     //
     pub fn tokenize(&self, state: &mut BlockState) {
         #[cfg(mdit_verif)]
-        let _verif_frame = crate::verif_hooks::Frame::enter(state.level);
+        let _verif_frame = crate::verif_hooks::Frame::enter('B', state.level);
         let mut has_empty_lines = false;
 
         while state.line < state.line_max {
